@@ -164,6 +164,32 @@ func (e *Exec) runSiteSpecs(s *State, ins ssa.Instruction, specs []*SiteSpec, be
 		for _, a := range ss.Assume {
 			hs.assume(e.asHyp(func() *Node { return e.evalClauseCur(a, hs, e.entry, extra) }))
 		}
+		for _, g := range ss.Ghost {
+			eq := strings.Index(g, "=")
+			name := strings.TrimSpace(g[:eq])
+			n, err := parseSpec(strings.TrimSpace(g[eq+1:]))
+			if err != nil {
+				panic(unsupportedErr{"bad ghost assignment " + g})
+			}
+			extra2 := map[string]specVar{"$current": {}}
+			for k, v := range extra {
+				extra2[k] = v
+			}
+			ctx := &SpecCtx{e: e, st: s, old: e.entry, vars: extra2, pkg: e.pkgTypes(), current: true}
+			v, vt := ctx.eval(n)
+			if cv, ok := v.(*ConstV); ok {
+				v = e.ar.lit(cv.V, e.ghostT[name])
+			} else if isMath(e.ghostT[name]) && vt != nil && !isMath(vt) {
+				v = e.ar.Convert(v.(*Node), vt, mathInt)
+			}
+			if _, declared := e.ghostT[name]; !declared {
+				panic(unsupportedErr{"undeclared ghost variable " + name})
+			}
+			s.ghost[name] = v
+			if e.written != nil {
+				e.written["ghostvar:"+name] = true
+			}
+		}
 		if e.quiet == 0 {
 			e.counters["site:"+ss.Label]++
 		}
